@@ -55,6 +55,7 @@ def _run(p, strategy="min_error", soft=True, ens=None, form=None):
     kw = dict(strategy=strategy, solver=p.get("solver", "cvxopt"), primal_dual=form or p.get("form", "dual"))
     if ens["probs"] is not None:
         kw["probs"] = list(ens["probs"])
+    kw.update(p.get("kwargs") or {})  # documented pass-through of picos solve options
     c = dc.call_soft if soft else dc.call
     val, meas = c(state_distinguishability, ens["states"], **kw)
     return ens, dc.fval(val), meas
@@ -153,13 +154,14 @@ def me_ge_max_prior(p):
 
 def me_ge_pgm(p):
     """value >= success probability of the pretty-good measurement"""
-    from vt.contract import Violation
+    from vt.contract import Undecided, Violation
 
     dc = _dc()
     ens, val, meas = _run(p)
     ms = dc.pgm(ens["rhos"], ens["pvec"])
     neg, ah, se = dc.povm_defect(ms, ens["d"])
-    assert neg < 1e-9 and se < 1e-9
+    if neg > 1e-9 or se > 1e-9:
+        raise Undecided("harness-side pretty-good measurement not accurate enough (%.1e, %.1e)" % (neg, se))
     pg = dc.attained(ens["rhos"], ens["pvec"], ms)
     if val < pg - dc.TOL:
         raise Violation("value %.7f < pretty-good-measurement success %.7f" % (val, pg))
@@ -393,7 +395,8 @@ def _ua_bracket(dc, ens):
     for z0 in (np.array(zv.value, dtype=complex), np.array(zv.value, dtype=complex).conj()):
         z = dc.psd_part(z0)
         z = z + np.diag(np.clip(pv - np.diag(z).real, 0, None) * (1 + 1e-9))
-        assert dc.lam_min(z) >= -1e-13 and np.all(np.diag(z).real >= pv - 1e-15)
+        if dc.lam_min(z) < -1e-13 or np.any(np.diag(z).real < pv - 1e-15):
+            raise Undecided("harness-side dual candidate could not be made feasible")
         his.append(float(np.trace(g @ z).real) + 1e-12)
     return lo, min(his)
 
@@ -544,14 +547,14 @@ CLAUSES = {
 }
 for _k, _f in CLAUSES.items():
     _f.function = {"me": FN, "ua": FN, "isd": "is_distinguishable", "tdm": "to_density_matrix", "gram": "vectors_to_gram_matrix"}[_k.split(".")[0]]
-    _f.limit = 60
+    _f.limit = 40
 
 ME_GENERIC = ["me.returns_normally", "me.povm_valid", "me.povm_attains", "me.value_le_opt", "me.value_ge_opt", "me.le_one", "me.ge_max_prior", "me.ge_pgm"]
 UA_GENERIC = ["ua.returns_normally", "ua.range", "ua.le_min_error", "ua.value_le_opt", "ua.value_ge_opt"]
 
 
 def cases(tier, seed):
-    from props.disc_common import sdp_solvers
+    from props.disc_common import pick, sdp_solvers
 
     thorough = tier == "thorough"
     seeds = [seed + 1000 * k for k in range(6 if thorough else 1)]
@@ -585,8 +588,8 @@ def cases(tier, seed):
                             i += 1
                             if slow and k > 0 and not thorough:
                                 continue
-                            rep = reps[(i + k) % 3]
-                            pr = priors[(i // 3 + k) % 4]
+                            rep = pick(reps, i, k)
+                            pr = pick(priors, i, k)
                             base = dict(n=n, d=d, field=field, form=form, solver=solver, rep=rep, prior=pr, kind="pure", seed=sd + i, phases=True)
                             for cl in clauses:
                                 add(cl, base, icl("min_error", form, field, "vec" if rep != "dm" else "dm", solver))
@@ -594,7 +597,7 @@ def cases(tier, seed):
                             i += 1
                             if slow and k > 0 and not thorough:
                                 continue
-                            base = dict(n=n, d=d, field=field, form=form, solver=solver, prior=priors[i % 4], kind="mixed", rank=rank, seed=sd + i)
+                            base = dict(n=n, d=d, field=field, form=form, solver=solver, prior=pick(priors, i), kind="mixed", rank=rank, seed=sd + i)
                             for cl in clauses:
                                 add(cl, base, icl("min_error", form, field, "dm", solver))
             # ---- two states: Helstrom (pure pairs with prescribed overlap, mixed pairs)
@@ -603,12 +606,16 @@ def cases(tier, seed):
                     for d in (2, 3, 4):
                         for j, ov in enumerate((0.0, 0.2, 0.6, 0.9, 0.999)):
                             i += 1
-                            base = dict(kind="pair", overlap=ov, d=d, field=field, form=form, solver=solver, rep=reps[i % 3], prior=priors[(i + j) % 4], seed=sd + i)
+                            if form == "primal" and not thorough and (d == 4 or j % 2 == 0):
+                                continue  # primal on two states: slow, breaks down inside cvxopt for d = 4
+                            base = dict(kind="pair", overlap=ov, d=d, field=field, form=form, solver=solver, rep=pick(reps, i), prior=pick(priors, i, j), seed=sd + i)
                             add("me.helstrom_le", base, icl("min_error", form, field, "pair", solver))
                             add("me.helstrom_ge", base, icl("min_error", form, field, "pair", solver))
                         for rank in (0, 1):
                             i += 1
-                            base = dict(kind="mixed", n=2, d=d, rank=rank, field=field, form=form, solver=solver, prior=priors[i % 4], seed=sd + i)
+                            if form == "primal" and not thorough and (d == 4 or rank == 1):
+                                continue
+                            base = dict(kind="mixed", n=2, d=d, rank=rank, field=field, form=form, solver=solver, prior=pick(priors, i), seed=sd + i)
                             add("me.helstrom_le", base, icl("min_error", form, field, "mixed-pair", solver))
                             add("me.helstrom_ge", base, icl("min_error", form, field, "mixed-pair", solver))
             # ---- orthogonal sets
@@ -617,43 +624,47 @@ def cases(tier, seed):
                     for d in (2, 3, 4):
                         for n in range(2, d + 1):
                             i += 1
-                            base = dict(kind="orthogonal", n=n, d=d, field=field, form=form, solver=solver, rep=reps[i % 3], prior=priors[i % 4], seed=sd + i)
+                            if form == "primal" and not thorough and d == 4 and n <= 3:
+                                continue
+                            base = dict(kind="orthogonal", n=n, d=d, field=field, form=form, solver=solver, rep=pick(reps, i), prior=pick(priors, i), seed=sd + i)
                             add("me.orthogonal_ge_one", base, icl("min_error", form, field, "orthogonal", solver))
                             add("me.le_one", base, icl("min_error", form, field, "orthogonal", solver))
                             add("me.povm_attains", base, icl("min_error", form, field, "orthogonal", solver))
                             if d >= 3 and n < d:
-                                base = dict(kind="orthogonal-mixed", n=n, d=d, field=field, form=form, solver=solver, prior=priors[(i + 1) % 4], seed=sd + i)
+                                base = dict(kind="orthogonal-mixed", n=n, d=d, field=field, form=form, solver=solver, prior=pick(priors, i, 1), seed=sd + i)
                                 add("me.orthogonal_ge_one", base, icl("min_error", form, field, "orthogonal-mixed", solver))
             # ---- metamorphic relations
             for (n, d) in nd:
                 for field in fields:
                     for form in forms:
                         i += 1
-                        kind = "mixed" if i % 3 == 0 else "pure"
-                        base = dict(n=n, d=d, field=field, form=form, solver=solver, rep=reps[i % 3], prior=priors[1 + i % 3] if i % 2 else "uniform", kind=kind, seed=sd + i, phases=True)
+                        if form == "primal" and not thorough and n <= 3 and (n, d) != (2, 3):
+                            continue
+                        kind = pick(["pure", "pure", "mixed"], i)
+                        base = dict(n=n, d=d, field=field, form=form, solver=solver, rep=pick(reps, i), prior=pick(priors, i), kind=kind, seed=sd + i, phases=True)
                         add("me.unitary_invariance", base, icl("min_error", form, field, "any", solver))
                         add("me.relabel_invariance", base, icl("min_error", form, field, "any", solver))
                     i += 1
-                    base = dict(n=n, d=d, field=field, solver=solver, rep=reps[i % 3], prior=priors[i % 4], kind="mixed" if i % 3 == 0 else "pure", seed=sd + i, phases=True)
+                    base = dict(n=n, d=d, field=field, solver=solver, rep=pick(reps, i), prior=pick(priors, i), kind=pick(["pure", "pure", "mixed"], i), seed=sd + i, phases=True)
                     add("me.primal_eq_dual", base, icl("min_error", "both", field, "any", solver))
-                    base = dict(n=n, d=d, field=field, form=forms[i % 2], solver=solver, prior=priors[i % 4], kind="pure", seed=sd + i, phases=True)
-                    add("me.representation_invariance", base, icl("min_error", forms[i % 2], field, "vec", solver))
+                    base = dict(n=n, d=d, field=field, form=pick(forms, i), solver=solver, prior=pick(priors, i), kind="pure", seed=sd + i, phases=True)
+                    add("me.representation_invariance", base, icl("min_error", pick(forms, i), field, "vec", solver))
             # ---- unambiguous (pure states, vectors)
             for (n, d) in nd:
                 for field in fields:
                     for form in forms:
                         i += 1
-                        rep = reps[i % 2]
+                        rep = pick(reps[:2], i)
                         lin = n > d
-                        base = dict(n=n, d=d, field=field, form=form, solver=solver, rep=rep, prior=priors[i % 4], kind="pure", seed=sd + i, phases=True)
+                        base = dict(n=n, d=d, field=field, form=form, solver=solver, rep=rep, prior=pick(priors, i), kind="pure", seed=sd + i, phases=True)
                         for cl in UA_GENERIC:
                             add(cl, base, icl("unambiguous", form, field, "lindep" if lin else "independent", solver))
                         i += 1
-                        base = dict(n=n, d=d, field=field, form=form, solver=solver, rep=reps[i % 2], prior=priors[i % 4], kind="lindep", seed=sd + i, phases=True)
+                        base = dict(n=n, d=d, field=field, form=form, solver=solver, rep=pick(reps[:2], i), prior=pick(priors, i), kind="lindep", seed=sd + i, phases=True)
                         add("ua.lindep_zero", base, icl("unambiguous", form, field, "lindep", solver))
                         add("ua.returns_normally", base, icl("unambiguous", form, field, "lindep", solver))
                     i += 1
-                    base = dict(n=n, d=d, field=field, solver=solver, rep=reps[i % 2], prior=priors[i % 4], kind="pure", seed=sd + i, phases=True)
+                    base = dict(n=n, d=d, field=field, solver=solver, rep=pick(reps[:2], i), prior=pick(priors, i), kind="pure", seed=sd + i, phases=True)
                     add("ua.primal_eq_dual", base, icl("unambiguous", "both", field, "lindep" if n > d else "independent", solver))
             for field in fields:
                 for form in forms:
@@ -661,7 +672,7 @@ def cases(tier, seed):
                         for j, ov in enumerate((0.0, 0.1, 0.5, 0.7071067811865476, 0.95)):
                             for pr in ("uniform", "omitted", "random", "skewed"):
                                 i += 1
-                                base = dict(kind="pair", overlap=ov, d=d, field=field, form=form, solver=solver, rep=reps[i % 2], prior=pr, seed=sd + i)
+                                base = dict(kind="pair", overlap=ov, d=d, field=field, form=form, solver=solver, rep=pick(reps[:2], i), prior=pr, seed=sd + i)
                                 kind = "pair-equiprobable" if pr in ("uniform", "omitted") else "pair-unequal-priors"
                                 add("ua.two_pure_le", base, icl("unambiguous", form, field, kind, solver))
                                 add("ua.two_pure_ge", base, icl("unambiguous", form, field, kind, solver))
@@ -672,14 +683,14 @@ def cases(tier, seed):
             for d in (2, 3, 4):
                 for n in range(2, d + 1):
                     i += 1
-                    add("isd.true_on_orthogonal", dict(kind="orthogonal", n=n, d=d, field=field, rep=reps[i % 3], prior=priors[i % 4], seed=sd + i), "is_distinguishable/orthogonal/" + field)
+                    add("isd.true_on_orthogonal", dict(kind="orthogonal", n=n, d=d, field=field, rep=pick(reps, i), prior=pick(priors, i), seed=sd + i), "is_distinguishable/orthogonal/" + field)
                 for n in (2, 3, 4):
                     i += 1
-                    add("isd.false_on_overlapping", dict(kind="pure", n=n, d=d, field=field, rep=reps[i % 3], prior=priors[i % 4], seed=sd + i), "is_distinguishable/overlapping/" + field)
+                    add("isd.false_on_overlapping", dict(kind="pure", n=n, d=d, field=field, rep=pick(reps, i), prior=pick(priors, i), seed=sd + i), "is_distinguishable/overlapping/" + field)
                 for ov in (0.1, 0.5):
                     i += 1
-                    add("isd.false_on_overlapping", dict(kind="pair", overlap=ov, d=d, field=field, rep=reps[i % 3], prior=priors[i % 4], seed=sd + i), "is_distinguishable/overlapping/" + field)
-            add("isd.true_on_orthogonal", dict(kind="named:bell", field=field, rep=reps[i % 3], prior="omitted", rotate=(field == "complex"), seed=sd), "is_distinguishable/orthogonal/" + field)
+                    add("isd.false_on_overlapping", dict(kind="pair", overlap=ov, d=d, field=field, rep=pick(reps, i), prior=pick(priors, i), seed=sd + i), "is_distinguishable/overlapping/" + field)
+            add("isd.true_on_orthogonal", dict(kind="named:bell", field=field, rep=pick(reps, i), prior="omitted", rotate=(field == "complex"), seed=sd), "is_distinguishable/orthogonal/" + field)
         # ---- helper functions under contract
         for field in fields:
             for d in (1, 2, 3, 4):
